@@ -165,9 +165,9 @@ PLAN['C07'] = {
 # --------------------------------------------------------------------------- C08
 PLAN['C08'] = {
     'stages': lambda tier, seed: (
-        [light('light_undo1', ['block', 'undoblock'], 5, 3, stack=1, und=1),
+        [light('light_undo1', ['block', 'undoblock'], 5, 3, stack=1, und=1, x='big=150'),
          light('light_undo2', ['block', 'undoblock'], 4, 2, stack=2, und=2)] if tier == 'quick' else
-        [light('light_undo1', ['block', 'undoblock'], 6, 3, stack=1, und=1),
+        [light('light_undo1', ['block', 'undoblock'], 6, 3, stack=1, und=1, x='big=100'),
          light('light_undo2', ['block', 'undoblock'], 5, 3, stack=2, und=2),
          light('light_undo3', ['block', 'undoblock'], 5, 2, stack=3, und=3)]),
     'rule': 'spec/LightClient.tla with the undo stack in the state: every block of every reachable (n, live, held) is '
